@@ -3,9 +3,10 @@ import ast
 
 from ..index import AnalysisError, u, dotted, call_name, call_attr, base_name, walk_local
 from .. import flow
+from .common import method
 from ..fold import fold, try_fold, NotConstant
 from ..fmt import layout
-from ..util import (assignments_to, single_def, param_defaults, calls_with_env, stmts_with_env, subscript_key,
+from ..util import (kwarg, assignments_to, single_def, param_defaults, calls_with_env, stmts_with_env, subscript_key,
                     loops_around, str_constants)
 
 PDB = 'vermouth/pdb/pdb.py'
@@ -528,6 +529,24 @@ def run(ck):
     shared.truthy_zero(ck, [PDB, GRO, 'vermouth/truncating_formatter.py'])
     shared.pure_writer(ck, pdb, wfn, [wfn.args.args[0].arg])
     shared.pure_writer(ck, gro, gw, [gw.args.args[0].arg])
+    # reading back through the processors: by default nothing is filtered, and the settings reach the readers unchanged
+    for rel_, cname, reader, extra in (('vermouth/processors/pdb_reader.py', 'PDBInput', 'read_pdb', ['modelidx']), ('vermouth/processors/gro_reader.py', 'GROInput', 'gro.read_gro', [])):
+        pm = ck.index.mod(rel_)
+        pc = pm.cls(cname)
+        init = ck.need(method(pc, '__init__'), cname + '.__init__ vanished')
+        rsys = ck.need(method(pc, 'run_system'), cname + '.run_system vanished')
+        ck.analysed(pm, rsys)
+        dfl = param_defaults(init)
+        ok = try_fold(dfl.get('exclude'), default='?') in ((), [], set()) and try_fold(dfl.get('ignh'), default='?') is False
+        ck.ob('PROV-reader-defaults', pm.loc(init), ok, '{}: by default no residue is excluded and hydrogens are kept (exclude={}, ignh={})'.format(
+            cname, u(dfl.get('exclude')) if dfl.get('exclude') is not None else '?', u(dfl.get('ignh')) if dfl.get('ignh') is not None else '?'), key='PROV-reader-defaults|' + cname)
+        rc = [c for c in walk_local(rsys) if isinstance(c, ast.Call) and u(c.func) == reader]
+        ok = len(rc) == 1 and all(kwarg(rc[0], k) is not None and u(kwarg(rc[0], k)) == 'self.' + k for k in ['exclude', 'ignh'] + extra) and u(rc[0].args[0]) == 'self.filename' and \
+            all('self.{0} = {0}'.format(k) in u(init) for k in ['filename', 'exclude', 'ignh'] + extra)
+        ck.ob('PROV-reader-defaults', pm.loc(rsys), ok, '{} hands file name and filter settings to {} exactly as configured'.format(cname, reader), key='PROV-reader-defaults|passthrough|' + cname)
+        adds = [c for c in walk_local(rsys) if isinstance(c, ast.Call) and call_attr(c) == 'add_molecule']
+        ck.ob('PROV-reader-defaults', pm.loc(rsys), len(adds) == 1 and not any(isinstance(n, (ast.If, ast.Break, ast.Continue)) for n in ast.walk(rsys)),
+              '{} adds every molecule the reader returns to the system'.format(cname), key='PROV-reader-defaults|all-molecules|' + cname)
     shared.sorted_nodes_rule(ck, 'FMT-order')
     shared.pdb_atom_record_rules(ck, 'PROV-record')
     ck.assume('PDB/GRO layouts are compared between the writer format strings and the reader column tables of the same tree; '
